@@ -513,7 +513,7 @@ def run(tier_name=None, replay=None):
         pool.terminate()
     t_engine = round(time.time() - t_engine, 2)
     try:
-        fails, stats = judge_cases(cases, os.path.join(RUN, "C14-" + t), parts=16 if thorough else 10)
+        fails, stats = judge_cases(cases, os.path.join(RUN, "C14-" + t), parts=16 if thorough else 8)
     except Exception as ex:
         th.join()
         v.machinery_failure(str(ex)[:1500])
@@ -525,7 +525,8 @@ def run(tier_name=None, replay=None):
     else:
         ok, lawstats, tail = laws["res"]
         if not ok:
-            v.machinery_failure("a law of Choice.tla fails in TLC: " + tail[-900:])
+            m = re.search(r"Invariant (\w+) is violated", tail)
+            v.machinery_failure("a law of Choice.tla fails in TLC%s: %s" % ((" (" + m.group(1) + ")") if m else "", tail[-900:]))
     stats["states"] += lawstats["law_states"]
     stats["transitions"] += lawstats["law_states"]
 
